@@ -212,8 +212,36 @@ def analyse_loop(prog, fn, header, loop_blocks, sites):
                     nexts = []
                     recs = {}
                     loops_back = False
+        # what happens if the loop is left right after this iteration (the cursor's new value ends it): the code behind the
+        # loop, with the flags this iteration has just set (`go_left = key < node_key; .. } if go_left { link left } ..`)
+        post_calls, post_bound = [], {}
+        if back:
+            binds3 = {}
+            for q in other_phis:
+                vals = resolve_phi_header(q, edges, header, header_phis)
+                evals = set()
+                for x in vals:
+                    if x.kind == 'const' and x.args[0] is not None:
+                        evals.add(bool(x.args[0]) if q.ty == 'bool' else x.args[0])
+                    else:
+                        try:
+                            e_ = ev.ev(x)
+                        except Exception:
+                            e_ = None
+                        evals.add(e_ if isinstance(e_, (bool, int)) else None)
+                if vals and len(evals) == 1 and None not in evals:
+                    binds3[q.id] = evals.pop()
+                post_bound[q.id] = vals
+            ev3 = Evaluator(prog, sites, rel)
+            ev3.env = binds3
+            try:
+                blocks3, edges3, undec3 = region(b, ev3, header, header, loop_blocks)
+            except Exception:
+                blocks3, undec3 = set(), [1]
+            if not undec3:
+                post_calls = [c for c in b.calls if c.point[0] in blocks3 and c.point[0] not in loop_blocks]
         res['rels'][rel] = {'blocks': blocks, 'edges': edges, 'nexts': nexts, 'rets': rets, 'recs': recs,
-                            'calls': calls, 'loops_back': loops_back}
+                            'calls': calls, 'loops_back': loops_back, 'post_calls': post_calls, 'post_bound': post_bound}
     return res
 
 
@@ -394,6 +422,17 @@ def check_frame(prog, fn, info, role, table):
                     if k - 1 < len(c.args):
                         parent = strip(c.args[k - 1])
                         links.add((f, parent is cursor))
+            if not links:
+                # the linking sits behind the loop, chosen by a flag this iteration set
+                for c in r.get('post_calls', []):
+                    tgt = prog.resolve(c)
+                    if tgt is None:
+                        continue
+                    for (k, f) in link_summary(prog, tgt):
+                        if k - 1 < len(c.args):
+                            parent = strip(c.args[k - 1])
+                            carried = r.get('post_bound', {}).get(parent.id)
+                            links.add((f, parent is cursor or (carried is not None and bool(carried) and all(strip(x) is cursor for x in carried))))
             # linking written out in place: node(P).left|right := freshly allocated slot
             for st in b.stores:
                 if st.point[0] not in r['blocks']:
